@@ -393,26 +393,30 @@ pub fn stub_isb_all(state: &mut [W]) {
     let slot = impl_layer(NB);
     sbox_layer_with(state, |l, x| uf_isb_slot(slot + l, x ^ 0x63))
 }
-/// stub for sub_bytes in key schedules, where all NB lanes hold the same block: 16 calls on lane 0, result replicated.
-/// That the argument is replicated is a proof obligation of the query (not an assumption).
+/// stub for sub_bytes in key schedules, where all NB lanes are expected to hold the same block: 16 calls on lane 0; a byte
+/// of another lane that EQUALS the corresponding byte of lane 0 gets lane 0's result, a byte that differs gets an arbitrary
+/// value.  (An asserted precondition "argument replicated" was used first: Kani's assert also assumes, so a change that
+/// breaks replication only in a lane surfaced as a failed precondition on a key for which the difference happens to be
+/// harmless -- a counterexample that does not reproduce natively.  With per-byte havoc the arbitrary values reach the key
+/// words exactly when a differing byte matters, and the final comparison fails on a key that reproduces.)
 #[cfg(kani)]
 pub fn stub_sb_rep(state: &mut [W]) {
     let slot = impl_layer(1);
     let x = unslice_real(state);
-    let mut rep = true;
-    let mut l = 1;
-    while l < NB {
-        rep &= x[l] == x[0];
-        l += 1;
-    }
-    kani::assert(rep, "VERIF_STUB_PRECONDITION sub_bytes argument replicated over the lanes");
-    let mut y0 = [0u8; 16];
+    let mut y = [[0u8; 16]; NB];
     let mut i = 0;
     while i < 16 {
-        y0[i] = uf_sb_slot(slot, x[0][i]) ^ 0x63;
+        let v = uf_sb_slot(slot, x[0][i]) ^ 0x63;
+        y[0][i] = v;
+        let mut l = 1;
+        while l < NB {
+            let h: u8 = kani::any();
+            y[l][i] = if x[l][i] == x[0][i] { v } else { h };
+            l += 1;
+        }
         i += 1;
     }
-    slice_real_into(state, &[y0; NB]);
+    slice_real_into(state, &y);
 }
 
 // ---------------------------------------------------------------------------------------------- access to private state
